@@ -77,6 +77,13 @@ CHECKS.update({
   note="Trusted: z3 (QF_NRA incl. an uninterpreted sqrt), numpy/xarray object-array loops. Exact real arithmetic - rounding, NaN handling, other dtypes, the FieldList backend are outside. A batch of one is passed through unchanged (as fluent does); xarray reductions use skipna=False."),
 })
 
+CHECKS.update({
+ "C13": dict(category="other", design_ref="DESIGN.md §2 E3, §4 C13", engine="E3-symreal",
+  technique="fluent programs built by the real fluent code and evaluated on symbolic reals (z3 Real array elements); z3 decides result != direct computation for all element values",
+  text="318 (quick) fluent programs over source node arrays of shape (2,), (3,), (2,2) (thorough adds (4,), (3,2), (2,3)): every named reduction x every dimension x every batch_size 0..n+1 x keep_dim, stack/concatenate/flatten, select/isel per coordinate, map, expand, scalar and action arithmetic, broadcast, join (new dimension by name, by Coord, along an existing dimension), transform, and depth-2 compositions. The graph is built natively by the real fluent API; a reference interpreter evaluates it by calling each node's payload on object arrays of z3 Reals; the oracle applies the operation directly to the stacked source terms. Checked: dims and coords of Action.nodes are the documented ones; at every coordinate z3 finds no element values separating result and oracle (all comparison outcomes of min/max explored).",
+  note="Trusted: z3, numpy object loops, the reference interpreter (values keyed by node identity). Exact reals; sqrt and non-integer power uninterpreted. The coordinate label of a kept dimension is not documented and not checked. Outside: rounding, size-1 reduced dimensions, depth > 2, other backends."),
+})
+
 NA_REASON = "check not built yet in this round (planned, see DESIGN.md §4); not claimed until its harness exists and passes on the unchanged tree"
 
 def main():
